@@ -128,7 +128,13 @@ def check_item(it):
                 checked += 1
                 if 'value' in r: viol.append(dict(goal=tag, n=None, observed=f"answered {judge.from_srepr(r['value'])}", expected='refusal: the exponential moment does not exist'))
                 continue
-            if 'error' in r: continue          # refusal allowed
+            if 'error' in r:
+                # a principled refusal (FunctionalAssignmentException, NotImplementedError of a family without cf/mgf) is allowed; anything else is a
+                # crash on a moment the property says Polar computes (D33: AssertionError for every Id power of a DiscreteUniform variable)
+                if r['error'] not in ('FunctionalAssignmentException', 'NotImplementedError'):
+                    checked += 1
+                    viol.append(dict(goal=tag, n=None, observed=f"{r['error']}: {r.get('msg', '')[:80]}", expected='the expectation (or a FunctionalAssignmentException)'))
+                continue
             got = judge.from_srepr(r['value'])
             try:
                 tv = truth(fam, ps, pw)
